@@ -21,6 +21,11 @@ theorem digit_not_space (c : Nat) (h : Py.isDigit c = true) : Py.isStrSpace c = 
   rw [isDigit_iff] at h
   simp [Py.isStrSpace]; omega
 
+/-- a digit is not C white space (the set `float()` skips) -/
+theorem digit_not_cspace (c : Nat) (h : Py.isDigit c = true) : Py.isBytesSpace c = false := by
+  rw [isDigit_iff] at h
+  simp [Py.isBytesSpace]; omega
+
 theorem digitsVal_foldl (ds : List Nat) (a : Nat) :
     ds.foldl (fun a c => a * 10 + (c - 48)) a = a * 10 ^ ds.length + digitsVal ds := by
   unfold digitsVal
@@ -96,7 +101,19 @@ theorem strip_none (s : List Nat) (h : ∀ c ∈ s, Py.isStrSpace c = false) : P
   rw [dropWhile_none _ s h, dropWhile_none _ s.reverse (fun c hc => h c (List.mem_reverse.mp hc)),
     List.reverse_reverse]
 
-/-! ### `ofStr` = strip, sign, body -/
+/-- `float()` / `int()` skip only C white space: a text without it is left as it is -/
+theorem stripC_none (s : List Nat) (h : ∀ c ∈ s, Py.isBytesSpace c = false) : Py.stripC s = s := by
+  unfold Py.stripC Py.rstripWith
+  rw [dropWhile_none _ s h, dropWhile_none _ s.reverse (fun c hc => h c (List.mem_reverse.mp hc)),
+    List.reverse_reverse]
+
+/-- the characters `str.strip()` keeps are also kept by the C white-space skip -/
+theorem not_cspace_of_not_space (c : Nat) (h : Py.isStrSpace c = false) : Py.isBytesSpace c = false := by
+  cases hb : Py.isBytesSpace c
+  · rfl
+  · simp [Py.isStrSpace] at h; simp [Py.isBytesSpace] at hb; omega
+
+/-! ### `ofStr` = strip (C white space only), sign, body -/
 
 /-- the part of `ofStr` after whitespace and sign have been removed (verbatim copy of the model text) -/
 def ofStrBody (neg : Bool) (s : List Nat) : Except PyExc F :=
@@ -136,13 +153,13 @@ def ofStrBody (neg : Bool) (s : List Nat) : Except PyExc F :=
           else if e10 ≥ 0 then .ok (ofRat neg (mant * 10 ^ e10.toNat) 1)
           else .ok (ofRat neg mant (10 ^ (-e10).toNat))
 
-theorem ofStr_plus (s r : List Nat) (h : Py.strip s = 43 :: r) : ofStr s = ofStrBody false r := by
+theorem ofStr_plus (s r : List Nat) (h : Py.stripC s = 43 :: r) : ofStr s = ofStrBody false r := by
   unfold ofStr; rw [h]; rfl
 
-theorem ofStr_minus (s r : List Nat) (h : Py.strip s = 45 :: r) : ofStr s = ofStrBody true r := by
+theorem ofStr_minus (s r : List Nat) (h : Py.stripC s = 45 :: r) : ofStr s = ofStrBody true r := by
   unfold ofStr; rw [h]; rfl
 
-theorem ofStr_nosign (s : List Nat) (c : Nat) (r : List Nat) (h : Py.strip s = c :: r) (h1 : c ≠ 43) (h2 : c ≠ 45) :
+theorem ofStr_nosign (s : List Nat) (c : Nat) (r : List Nat) (h : Py.stripC s = c :: r) (h1 : c ≠ 43) (h2 : c ≠ 45) :
     ofStr s = ofStrBody false (c :: r) := by
   unfold ofStr; rw [h]; dsimp only
   split
@@ -235,10 +252,10 @@ def signChars : Option Bool → List Nat
   | some true => [45]
 
 theorem ofStr_signed (sign : Option Bool) (t : List Nat) (c : Nat) (r : List Nat) (ht : t = c :: r)
-    (hc : c ≠ 43 ∧ c ≠ 45) (hsp : ∀ x ∈ t, Py.isStrSpace x = false) :
+    (hc : c ≠ 43 ∧ c ≠ 45) (hsp : ∀ x ∈ t, Py.isBytesSpace x = false) :
     ofStr (signChars sign ++ t) = ofStrBody (sign == some true) t := by
-  have hst : Py.strip (signChars sign ++ t) = signChars sign ++ t := by
-    apply strip_none
+  have hst : Py.stripC (signChars sign ++ t) = signChars sign ++ t := by
+    apply stripC_none
     intro x hx
     rcases List.mem_append.mp hx with h | h
     · rcases sign with _ | _ | _ <;> simp [signChars] at h <;> subst h <;> decide
@@ -249,6 +266,7 @@ theorem ofStr_signed (sign : Option Bool) (t : List Nat) (c : Nat) (r : List Nat
   · exact ofStr_minus _ t (by rw [hst]; rfl)
 
 theorem dot_not_space : Py.isStrSpace 46 = false := by decide
+theorem dot_not_cspace : Py.isBytesSpace 46 = false := by decide
 
 /-- **`float(text)` of a decimal with a point.** For digits `ip` and `fp` (not both empty; any number of
     digits) and an optional sign, `float(sign ip "." fp)` is the double
@@ -266,10 +284,10 @@ theorem ofStr_decimal (sign : Option Bool) (ip fp : List Nat) (hip : AllDigits i
   rw [ofStr_signed sign _ c r hs hc, ofStrBody_decimal _ ip fp hip hfp hne]
   intro x hx
   rcases List.mem_append.mp hx with h | h
-  · exact digit_not_space x (hip x h)
+  · exact digit_not_cspace x (hip x h)
   · rcases List.mem_cons.mp h with h | h
-    · subst h; exact dot_not_space
-    · exact digit_not_space x (hfp x h)
+    · subst h; exact dot_not_cspace
+    · exact digit_not_cspace x (hfp x h)
 
 /-- **`float(text)` of a decimal without a point** (an integer text, leading zeros allowed). -/
 theorem ofStr_decimal_nodot (sign : Option Bool) (ip : List Nat) (hip : AllDigits ip) (hne : ip ≠ []) :
@@ -282,7 +300,7 @@ theorem ofStr_decimal_nodot (sign : Option Bool) (ip : List Nat) (hip : AllDigit
       exact ⟨d, ds, rfl, by omega⟩
   rw [ofStr_signed sign _ c r hs hc, ofStrBody_decimal_nodot _ ip hip hne]
   intro x hx
-  exact digit_not_space x (hip x hx)
+  exact digit_not_cspace x (hip x hx)
 
 /-- both unsigned forms at once: `text` is `ip "." fp`, or just `ip` (then `fp` is empty) -/
 theorem ofStr_decimal_text (text ip fp : List Nat) (hip : AllDigits ip) (hfp : AllDigits fp)
@@ -292,5 +310,13 @@ theorem ofStr_decimal_text (text ip fp : List Nat) (hip : AllDigits ip) (hfp : A
   · exact ofStr_decimal none ip fp hip hfp hne
   · have h := ofStr_decimal_nodot none text hip (by simpa using hne)
     simpa [signChars] using h
+
+/-- `float()` on ASCII text skips C white space only: the separators 0x1C..0x1F, which `str.strip()`
+    removes, make it fail (CPython: `float('\x1f281.882')`, `float('1.5\x1c')` raise ValueError) -/
+example : ofStr [0x1f, 50, 56, 49, 46, 56, 56, 50] = .error .valueError ∧
+    ofStr [49, 46, 53, 0x1c] = .error .valueError ∧
+    ofStr [0x0b, 32, 49, 46, 53, 0x0c, 10] = ofStr [49, 46, 53] ∧
+    (∃ x, ofStr [49, 46, 53] = .ok x) := by
+  refine ⟨by decide, by decide, by decide, ⟨_, ofStr_decimal none [49] [53] (by simp [AllDigits, Py.isDigit]) (by simp [AllDigits, Py.isDigit]) (by simp)⟩⟩
 
 end Amshan.Flt
